@@ -444,6 +444,18 @@ class ExprMixin:
   def binop(self, op, a, b, st, node):
     if isinstance(a, Abstract) or isinstance(b, Abstract):
       self.unsupp('binary op on abstract values', node)
+    if isinstance(op, ast.BitOr):
+      # set | set: a fresh set with the union of the members
+      h = st.heap
+      both = z3.And(is_VRef(a), is_VRef(b), cls_in(h.cls(ref(a)), 'set'), cls_in(h.cls(ref(b)), 'set'))
+      if self.feasible_full(st, z3.Not(both)):
+        self.unsupp('| on values that may not both be sets', node)
+      k_ = z3.Const('su_k', Val)
+      newhas = fresh('union_has', HasArr)
+      ha, hb = h.hasarr(ref(a)), h.hasarr(ref(b))
+      fact = SAFE_FORALL([k_], newhas[k_] == z3.Or(ha[k_], hb[k_]), patterns=[newhas[k_], ha[k_], hb[k_]])
+      st2, r = self.new_dict(st.assume(fact), 'set', has=newhas)
+      return [Res(st2, VRef(r))]
     out = []
     ints = z3.And(self.is_intlike(a), self.is_intlike(b))
     strs = z3.And(is_VStr(a), is_VStr(b))
@@ -1120,6 +1132,7 @@ class ExprMixin:
     v = SeqView(cnt, lambda i: seq[i], src=r)
     v.src_arrays = ('dhas',)
     v.is_keys = True
+    v.has = st.heap.hasarr(r)       # the membership array the enumeration is a function of
     return v
 
 
